@@ -26,7 +26,8 @@ def mc_configs(ctx):
                 ("pending-validation-2cuts-2reconnects", nu.mc_consts(mo=1, moy=0, mcl=0, cut=2, rec=2)),
                 ("retry-after-failure", nu.mc_consts(mo=2, moy=0, mcl=0)),
                 ("retry-after-failure-repaired", nu.mc_consts(mo=2, moy=0, mcl=0, fixed=set(nu.SIG_TAG.values()))),
-                ("one-open-no-auto-repaired", nu.mc_consts(mo=1, mcl=0, fixed=set(nu.SIG_TAG.values())))]
+                ("one-open-no-auto-repaired-earlyval", nu.mc_consts(mo=1, mcl=0, fixed=set(nu.SIG_TAG.values()), early=True)),
+                ("one-open-no-auto-earlyval", nu.mc_consts(mo=1, mcl=0, early=True))]
     return [("open-close", nu.mc_consts(mo=1, mcl=1)),
             ("cut-reconnect", nu.mc_consts(mo=1, mcl=0, cut=1, rec=1, sub=4)),
             ("open-fail-autoXY", nu.mc_consts(auto=("X", "Y"), mo=1, mcl=0, fail=1)),
@@ -36,6 +37,8 @@ def mc_configs(ctx):
             ("retry-after-failure", nu.mc_consts(mo=2, moy=0, mcl=0)),
             ("retry-after-failure-repaired", nu.mc_consts(mo=2, moy=0, mcl=0, fixed=set(nu.SIG_TAG.values()))),
             ("open-close-repaired", nu.mc_consts(mo=1, mcl=1, fixed=set(nu.SIG_TAG.values()))),
+            ("one-open-repaired-earlyval", nu.mc_consts(mo=1, mcl=0, fixed=set(nu.SIG_TAG.values()), early=True)),
+            ("one-open-earlyval", nu.mc_consts(mo=1, mcl=0, early=True)),
             ("x2y1-repaired", nu.mc_consts(mo=2, moy=1, mcl=0, fixed=set(nu.SIG_TAG.values())))]
 
 
